@@ -563,51 +563,68 @@ Section Lex.
     end.
 
   (** ** Numbers *)
+  (** "match one period" *)
+  Definition num_period (s0 r0 : str) : str * str :=
+    match r0 with
+    | c :: r => if c =? cDOT then (s0 ++ [cDOT], r) else (s0, r0)
+    | [] => (s0, r0)
+    end.
+  (** optional sign of the exponent (through the cloned iterator) *)
+  Definition num_sign (ra : str) : str * str :=
+    match ra with
+    | sg :: rb' => if (sg =? cPLUS) || (sg =? cMINUS) then ([sg], rb') else ([], ra)
+    | [] => ([], ra)
+    end.
+  (** exponent look-ahead: new text, new rest, and whether an 'e'/'E' was seen at all *)
+  Definition num_exponent (s2 r2 : str) : str * str * bool :=
+    match r2 with
+    | e :: ra =>
+        if (e =? 101) || (e =? 69) then
+          let '(sign, rb) := num_sign ra in
+          match rb with
+          | dg :: _ =>
+              if is_digit dg then
+                let '(ds, rc) := take_while is_digit rb in
+                (s2 ++ e :: sign ++ ds, rc, true)
+              else (s2, r2, true)
+          | [] => (s2, r2, true)
+          end
+        else (s2, r2, false)
+    | [] => (s2, r2, false)
+    end.
+  (** numeric-prefix identifiers, then the 'L' suffix *)
+  Definition num_tail (s3 r3 : str) (saw_e : bool) : tok * str :=
+    let word_branch :=
+      if d_numeric_prefix d && negb saw_e then
+        let '(w, r4) := take_while (d_ident_part d) r3 in
+        match w with [] => None | _ => Some (TWord (s3 ++ w) None, r4) end
+      else None in
+    match word_branch with
+    | Some x => x
+    | None =>
+        match r3 with
+        | c :: r4 => if c =? 76 then (TNumber s3 true, r4) else (TNumber s3 false, r3)
+        | [] => (TNumber s3 false, r3)
+        end
+    end.
+  Definition num_hex_prefix (s0 r0 : str) : option str :=
+    if str_eqb s0 [48] then
+      match r0 with c :: r => if c =? 120 then Some r else None | [] => None end
+    else None.
+
   Definition number (l : str) : tok * str :=
     let '(s0, r0) := take_while is_digit l in
-    match (if str_eqb s0 [48] then match r0 with c :: r => if c =? 120 then Some r else None | [] => None end else None) with
+    match num_hex_prefix s0 r0 with
     | Some r =>
         let '(h, r') := take_while is_hexdigit r in (TStr KHex h, r')
     | None =>
-        let '(s1, r1) := match r0 with
-                         | c :: r => if c =? cDOT then (s0 ++ [cDOT], r) else (s0, r0)
-                         | [] => (s0, r0) end in
+        let '(s1, r1) := num_period s0 r0 in
         let '(s2d, r2) := take_while is_digit r1 in
         let s2 := s1 ++ s2d in
         if str_eqb s2 [cDOT] then (TFix FPeriod, r2)
         else
-          (* exponent look-ahead through a cloned iterator *)
-          let '(s3, r3, saw_e) :=
-            match r2 with
-            | e :: ra =>
-                if (e =? 101) || (e =? 69) then
-                  let '(sign, rb) := match ra with
-                                     | sg :: rb' => if (sg =? cPLUS) || (sg =? cMINUS) then ([sg], rb') else ([], ra)
-                                     | [] => ([], ra) end in
-                  match rb with
-                  | dg :: _ =>
-                      if is_digit dg then
-                        let '(ds, rc) := take_while is_digit rb in
-                        (s2 ++ e :: sign ++ ds, rc, true)
-                      else (s2, r2, true)
-                  | [] => (s2, r2, true)
-                  end
-                else (s2, r2, false)
-            | [] => (s2, r2, false)
-            end in
-          let word_branch :=
-            if d_numeric_prefix d && negb saw_e then
-              let '(w, r4) := take_while (d_ident_part d) r3 in
-              match w with [] => None | _ => Some (TWord (s3 ++ w) None, r4) end
-            else None in
-          match word_branch with
-          | Some x => x
-          | None =>
-              match r3 with
-              | c :: r4 => if c =? 76 then (TNumber s3 true, r4) else (TNumber s3 false, r3)
-              | [] => (TNumber s3 false, r3)
-              end
-          end
+          let '(s3, r3, saw_e) := num_exponent s2 r2 in
+          num_tail s3 r3 saw_e
     end.
 
   (** ** The dispatcher: [next_token].  [None] = end of input. *)
